@@ -6,6 +6,7 @@ import (
 	"math/rand"
 	"os"
 	"path/filepath"
+	"sort"
 	"strings"
 
 	"verif/core"
@@ -423,6 +424,8 @@ type forest struct {
 	semis  map[string][]int // expected semitones per chord name (parent first)
 	depth  map[string]int
 	sizes  map[string]int
+	// long name of the built-in whose display symbol a user chord took over ("" = none)
+	takenOver string
 }
 
 func genForest(r *rand.Rand, tag string) forest {
@@ -512,14 +515,24 @@ func genForest(r *rand.Rand, tag string) forest {
 		f.depth[uc.Name] = 1
 		f.chords = append(f.chords, uc)
 	}
-	// a fresh chord that takes over the display symbol of a built-in nothing extends: user
-	// files are read after the built-ins, so the symbol now means the user's chord
-	if r.Intn(3) == 0 {
+	// a fresh chord that takes over the display symbol of a built-in (every built-in that extends another
+	// names it by its long name, and the forest itself refers to m7b5 and sus4 only): user files are read
+	// after the built-ins, so the symbol now means the user's chord while the long name keeps the built-in
+	if r.Intn(2) == 0 {
+		var disp []string
+		for n, d := range theory.ChordNames {
+			if d != "" && d != "m7b5" && d != "sus4" && d != "add9" && d != "m7" {
+				disp = append(disp, n)
+			}
+		}
+		sort.Strings(disp)
+		long := disp[r.Intn(len(disp))]
 		a := f.attrs[r.Intn(len(f.attrs))]
-		uc := userChord{Name: "Zsus2" + tag, Display: "sus2", Attrs: []string{"Perfect1", a.Name}}
+		uc := userChord{Name: "Ztake" + tag, Display: theory.ChordNames[long], Attrs: []string{"Perfect1", a.Name}}
 		f.semis[uc.Name] = []int{0, f.sizes[a.Name]}
 		f.depth[uc.Name] = 1
 		f.chords = append(f.chords, uc)
+		f.takenOver = long
 	}
 	return f
 }
@@ -545,9 +558,29 @@ func writeDictFiles(c *core.Ctx, r *rand.Rand, f forest) []string {
 	for j := 0; j+1 < len(ac); j++ {
 		args = append(args, "--attr", c.Scratch.File("attr.yml", attrsYAML(f.attrs[ac[j]:ac[j+1]])))
 	}
-	cc := split(len(f.chords))
+	// the dictionary is the union of all files: names and displays are unique among the user's chords, so
+	// neither the order of the definitions nor the order of the files matters (children before parents,
+	// a child in an earlier file than its parent)
+	chords := append([]userChord(nil), f.chords...)
+	switch r.Intn(3) {
+	case 0:
+		r.Shuffle(len(chords), func(a, b int) { chords[a], chords[b] = chords[b], chords[a] })
+	case 1:
+		for a, b := 0, len(chords)-1; a < b; a, b = a+1, b-1 {
+			chords[a], chords[b] = chords[b], chords[a]
+		}
+	}
+	cc := split(len(chords))
+	var files []string
 	for j := 0; j+1 < len(cc); j++ {
-		args = append(args, "--chord", c.Scratch.File("chord.yml", chordsYAML(f.chords[cc[j]:cc[j+1]])))
+		files = append(files, c.Scratch.File("chord.yml", chordsYAML(chords[cc[j]:cc[j+1]])))
+	}
+	if len(files) > 1 && r.Intn(3) == 0 {
+		args = append(args, "--chord", strings.Join(files, ","))
+	} else {
+		for _, fn := range files {
+			args = append(args, "--chord", fn)
+		}
 	}
 	return args
 }
@@ -598,6 +631,18 @@ func userForestCase(c *core.Ctx, i int, r *rand.Rand) {
 				c.Violate("forest", i, sig+":notes", fmt.Sprintf("user chord %q (extends %q, attributes %v) sounds %v, the parent-first transitive union is %v", key, uc.Extends, uc.Attrs, sortedInts(keysGot), sortedInts(exp)), desc)
 				return
 			}
+		}
+	}
+	// the long name of a built-in whose symbol was taken over still means the built-in
+	if f.takenOver != "" {
+		want, _ := theory.ChordSemis(f.takenOver)
+		exp := []int{48}
+		for _, s := range want {
+			exp = append(exp, 60+s)
+		}
+		if k, _, why, _ := soundedKeys(c, f.takenOver, args); why == "" && !eqInts(sortedInts(k), sortedInts(exp)) {
+			c.Violate("forest", i, sig+":takenover", fmt.Sprintf("a user chord took over the symbol %q; the long name %s now sounds %v, the built-in is %v", theory.ChordNames[f.takenOver], f.takenOver, sortedInts(k), exp), desc)
+			return
 		}
 	}
 	// built-ins stay usable next to the user dictionary
